@@ -889,6 +889,19 @@ class _Dispatch(ast.NodeTransformer):
         if not (isinstance(it, (ast.Tuple, ast.List)) and 1 <= len(it.elts) <= 8 and not any(isinstance(x, ast.Starred) for x in it.elts)):
             return node
         body = node.body
+        if body and not node.orelse and any(isinstance(x, ast.Return) for st in body for x in ast.walk(st)) \
+                and not any(isinstance(x, (ast.Break, ast.Continue, ast.FunctionDef, ast.Lambda)) for st in body for x in ast.walk(st)):
+            # for a, f in ((A1, F1), (A2, F2)): if test(a): return f   ==>   the passes one after the other (a return leaves anyway)
+            out = []
+            for elt in it.elts:
+                bind = ast.Assign(targets=[copy.deepcopy(node.target)], value=copy.deepcopy(elt), lineno=node.lineno)
+                for n in ast.walk(bind.targets[0]):
+                    if isinstance(n, (ast.Name, ast.Tuple, ast.List)):
+                        n.ctx = ast.Store()
+                out.append(ast.copy_location(bind, node))
+                out.extend(copy.deepcopy(body))
+            self.changed = True
+            return out
         if not body or not isinstance(body[-1], ast.If) or body[-1].orelse:
             return node
         last = body[-1]
